@@ -1,35 +1,62 @@
-import Spine.Registry
+import Drivers.RegWorld
 open Spine.Reg
-def parseEnt (s : String) : List Nat := (s.splitOn ".").filterMap String.toNat?
-def showEnt (e : List Nat) : String := ".".intercalate (e.map toString)
-def showEntry (e : Entry) : String := s!"{e.id}:{showEnt e.sEnt}/{e.sFeat}<-{e.peer}:{showEnt e.cEnt}/{e.cFeat}"
-def showL (l : List Entry) : String := if l.isEmpty then "." else ",".intercalate (l.map showEntry)
-def remoteFeats : List Feat := [
-  ⟨[0], 0, 100, .special⟩,
-  ⟨[1], 1, 1, .client⟩, ⟨[1], 2, 2, .client⟩, ⟨[1], 3, 0, .client⟩, ⟨[1], 4, 1, .server⟩,
-  ⟨[2], 1, 1, .client⟩ ]
-def localFeats : List Feat := [
-  ⟨[0], 0, 100, .special⟩, ⟨[0], 1, 3, .server⟩,
-  ⟨[1], 1, 1, .server⟩, ⟨[1], 2, 2, .server⟩, ⟨[1], 3, 1, .client⟩,
-  ⟨[2], 1, 1, .server⟩, ⟨[2], 2, 4, .server⟩ ]
-def init : St := { loc := localFeats, rem := fun _ => remoteFeats }
-def b (x : Bool) : String := if x then "ok" else "err"
-def cfg : Cfg := {}
-partial def loop (h : IO.FS.Stream) (out : IO.FS.Stream) (s : St) : IO Unit := do
+/-! Line protocol for the registry family (C08, C09, C10). One op per line, one answer per line.
+    `cfg a b c d` (0/1 each) selects the member: delSubByDevice delBindByDevice unbindDisjunct dropBindsAnyPeer. -/
+def answer (cfg : Cfg) (s : St) (ws : List String) : Cfg × St × String :=
+  match ws with
+  | ["sub", p, ce, cf, se, sf, t] => match nats [p, cf, sf, t] with
+    | some [p, cf, sf, t] => let (s', r) := addSub s p (parseEnt ce) cf (parseEnt se) sf t; (cfg, s', b r)
+    | _ => (cfg, s, "bad-op")
+  | ["unsub", p, cd, ce, cf, se, sf] => match nats [p, cd, cf, sf] with
+    | some [p, cd, cf, sf] => let (s', r) := delSub cfg s p cd (parseEnt ce) cf (parseEnt se) sf; (cfg, s', b r)
+    | _ => (cfg, s, "bad-op")
+  | ["bind", p, ce, cf, se, sf, t] => match nats [p, cf, sf, t] with
+    | some [p, cf, sf, t] => let (s', r) := addBind s p (parseEnt ce) cf (parseEnt se) sf t; (cfg, s', b r)
+    | _ => (cfg, s, "bad-op")
+  | ["unbind", p, cd, ce, cf, se, sf] => match nats [p, cd, cf, sf] with
+    | some [p, cd, cf, sf] => let (s', r) := delBind cfg s p cd (parseEnt ce) cf (parseEnt se) sf; (cfg, s', b r)
+    | _ => (cfg, s, "bad-op")
+  | ["drop", p] => match p.toNat? with
+    | some p => (cfg, dropPeer cfg s p, "done")
+    | none => (cfg, s, "bad-op")
+  | ["dropent", p, e] => match p.toNat? with
+    | some p => (cfg, dropEntity cfg s p (parseEnt e), "done")
+    | none => (cfg, s, "bad-op")
+  | ["subs", p] => match p.toNat? with
+    | some p => (cfg, s, showL (subsOf s p))
+    | none => (cfg, s, "bad-op")
+  | ["binds", p] => match p.toNat? with
+    | some p => (cfg, s, showL (bindsOf s p))
+    | none => (cfg, s, "bad-op")
+  | ["notify", se, sf] => match sf.toNat? with
+    | some sf => (cfg, s, toString ((notifyTargets s (parseEnt se) sf).map fun (p, e, f) => s!"{p}:{showEnt e}/{f}"))
+    | none => (cfg, s, "bad-op")
+  | ["update", se, sf] => match sf.toNat? with
+    | some sf => (cfg, s, toString ((notifyTargets s (parseEnt se) sf).map fun (p, e, f) => s!"{p}:{showEnt e}/{f}"))
+    | none => (cfg, s, "bad-op")
+  | ["write", p, ce, cf, se, sf] => match nats [p, cf, sf] with
+    -- a remote write: unknown source feature -> no answer; unknown / unwritable destination or no binding -> error
+    -- result; otherwise applied and notified to the subscribers of the destination
+    | some [p, cf, sf] =>
+      let ce := parseEnt ce; let se := parseEnt se
+      if (findF (s.rem p) ce cf).isNone then (cfg, s, "none")
+      else if !(writable.contains (se, sf)) then (cfg, s, "denied")
+      else if s.binds.any (·.is p ce cf se sf) then
+        (cfg, s, toString ((notifyTargets s se sf).map fun (p, e, f) => s!"{p}:{showEnt e}/{f}"))
+      else (cfg, s, "denied")
+    | _ => (cfg, s, "bad-op")
+  | ["cfg", a, b', c, d] => match nats [a, b', c, d] with
+    | some [a, b', c, d] =>
+      ({ delSubByDevice := bit a, delBindByDevice := bit b', unbindDisjunct := bit c, dropBindsAnyPeer := bit d }, s, "cfg")
+    | _ => (cfg, s, "bad-op")
+  | ["reset"] => (cfg, init, "reset")
+  | _ => (cfg, s, "bad-op")
+partial def loop (h : IO.FS.Stream) (out : IO.FS.Stream) (cfg : Cfg) (s : St) : IO Unit := do
   let line ← h.getLine
   if line.isEmpty then out.flush; return ()
-  let (s', ans) : St × String := match line.trimAscii.toString.splitOn " " with
-    | ["sub", p, ce, cf, se, sf, t] => let (s', r) := addSub s p.toNat! (parseEnt ce) cf.toNat! (parseEnt se) sf.toNat! t.toNat!; (s', b r)
-    | ["unsub", p, cd, ce, cf, se, sf] => let (s', r) := delSub cfg s p.toNat! cd.toNat! (parseEnt ce) cf.toNat! (parseEnt se) sf.toNat!; (s', b r)
-    | ["bind", p, ce, cf, se, sf, t] => let (s', r) := addBind s p.toNat! (parseEnt ce) cf.toNat! (parseEnt se) sf.toNat! t.toNat!; (s', b r)
-    | ["unbind", p, cd, ce, cf, se, sf] => let (s', r) := delBind cfg s p.toNat! cd.toNat! (parseEnt ce) cf.toNat! (parseEnt se) sf.toNat!; (s', b r)
-    | ["drop", p] => (dropPeer cfg s p.toNat!, "done")
-    | ["subs", p] => (s, showL (s.subs.filter (·.peer = p.toNat!)))
-    | ["binds", p] => (s, showL (s.binds.filter (·.peer = p.toNat!)))
-    | ["notify", se, sf] => (s, toString ((notifyTargets s (parseEnt se) sf.toNat!).map fun (p, e, f) => s!"{p}:{showEnt e}/{f}"))
-    | ["reset"] => (init, "reset")
-    | _ => (s, "bad-op")
+  let ws := (line.trimAscii.toString.splitOn " ").filter (· ≠ "")
+  let (cfg', s', ans) := answer cfg s ws
   out.putStrLn ans
   out.flush
-  loop h out s'
-def main : IO Unit := do loop (← IO.getStdin) (← IO.getStdout) init
+  loop h out cfg' s'
+def main : IO Unit := do loop (← IO.getStdin) (← IO.getStdout) {} init
